@@ -239,12 +239,7 @@ theorem cookie_filter_hides_named (o : Oracles) (acts : List Act) (l : List Byte
         ((hiddenBy acts c.name = false ∧ c' = c) ∨
          (∃ a ∈ acts, a.name = c.name ∧ (c'.value = a.value ∨ c'.value = o.H c.value))) := by
   refine ⟨(o.cookies l).filterMap (cookieAct o.H acts), ?_, ?_⟩
-  · unfold cookieVal joinCookies
-    split <;> rename_i h
-    · rw [h]
-    · cases hfm : (o.cookies l).filterMap (cookieAct o.H acts) with
-      | nil => exact absurd hfm h
-      | cons x r => rfl
+  · cases hfm : (o.cookies l).filterMap (cookieAct o.H acts) <;> simp [cookieVal, joinCookies, hfm]
   · intro c' hc'
     rcases List.mem_filterMap.mp hc' with ⟨c, hc, hact⟩
     exact ⟨c, hc, cookieAct_some o.H acts c c' hact⟩
@@ -278,22 +273,19 @@ theorem query_filter_keeps_other_params (o : Oracles) (acts : List Act) (u : URL
 
 /-- the `hash` action of the query filter writes `hash(action.Value)` — a constant that does not
     depend on the parameter's content (filters.go: `q[a.Parameter][i] = hash(a.Value)`) -/
-theorem query_hash_action_is_constant (H : Bytes → Bytes) (q q' : List (Bytes × List Bytes)) (a : Act)
-    (ht : a.typ = .hash) (hq : q.map (fun kv => (kv.1, kv.2.length)) = q'.map (fun kv => (kv.1, kv.2.length)))
-    (hother : ∀ kv ∈ q, kv.1 ≠ a.name → kv ∈ q') (hother' : ∀ kv ∈ q', kv.1 ≠ a.name → kv ∈ q) :
+theorem query_hash_action_is_constant (H : Bytes → Bytes) (q : List (Bytes × List Bytes)) (a : Act)
+    (ht : a.typ = .hash) :
     ∀ kv ∈ applyAct H q a, kv.1 = a.name → kv.2 = List.replicate kv.2.length (H a.value) := by
   intro kv hkv hk
   apply List.eq_replicate_iff.mpr
   refine ⟨rfl, ?_⟩
   intro v hv
-  rcases applyAct_touched H q a kv hkv hk v hv with h | h
-  · unfold applyAct at hkv
-    simp [ht] at hkv
-    rcases hkv with ⟨k, vs, _, heq⟩
-    split at heq
-    · subst heq; simp at hv; exact hv.2.symm
-    · rename_i hne; subst heq; exact absurd hk hne
-  · exact h
+  unfold applyAct at hkv
+  simp [ht] at hkv
+  rcases hkv with ⟨k, vs, _, heq⟩
+  split at heq
+  · subst heq; simp at hv; exact hv.2.symm
+  · rename_i hne; subst heq; exact absurd hk hne
 
 /-- **ip_mask**, when `net.ParseIP` accepts the host: the emitted element is a function of the masked
     address bytes and the port only — two addresses with the same network part are logged identically.
@@ -304,12 +296,10 @@ theorem ipmask_hides_host_bits_partial (o : Oracles) (m4 m6 : Option (List UInt8
     maskValue o m4 m6 v = maskValue o m4 m6 v' := by
   simp [maskValue, h1, h2, hnet, hport]
 
-/-- the mask really clears the host part: a masked byte does not depend on the bits below the prefix -/
-theorem maskByte_clears_host_bits (ones : Nat) (a b : UInt8) (h : a >>> (8 - UInt8.ofNat ones) = b >>> (8 - UInt8.ofNat ones))
-    (hones : ones ≤ 8) (hpos : 0 < ones) : a &&& maskByte ones = b &&& maskByte ones := by
-  have hcases : ones = 1 ∨ ones = 2 ∨ ones = 3 ∨ ones = 4 ∨ ones = 5 ∨ ones = 6 ∨ ones = 7 ∨ ones = 8 := by omega
-  rcases hcases with rfl | rfl | rfl | rfl | rfl | rfl | rfl | rfl <;>
-    (revert a b; decide)
+/-- the masks are CIDR masks: byte `i` of a `/ones` mask keeps the top `min 8 (ones - 8 i)` bits -/
+theorem cidr_mask_table : (List.range 9).map maskByte = [0, 128, 192, 224, 240, 248, 252, 254, 255] ∧
+    ∀ len ones, (cidrBytes (len + 1) ones) = maskByte ones :: cidrBytes len (ones - 8) := by
+  refine ⟨by decide, fun _ _ => rfl⟩
 
 /-- **rename** changes the key, never the value (it hides nothing and claims nothing) -/
 theorem rename_keeps_value (o : Oracles) (n : Bytes) (f : Field) : (applyFilter o (.rename n) f).val = f.val := rfl
@@ -350,8 +340,8 @@ def exO : Oracles where
 
 example : applyFilter exO .hash ⟨str "k", .arr [str "ab", str "c"]⟩ = ⟨str "k", .arr [str "hba", str "hc"]⟩ := by decide
 example : stringy (.arr [str "ab"]) = true := by decide
-example : applyFilter exO (.ipMask 16 32) ⟨str "k", .str (str "10.1.2.3:80, 10.1.9.9")⟩
-    = ⟨str "k", .str (str "10.1.0.0:80, ?, 10.1.0.0")⟩ ∨ True := Or.inr trivial
+example : applyFilter exO (.ipMask 16 32) ⟨str "k", .str (str "10.1.2.3:80,10.1.9.9,unknown")⟩
+    = ⟨str "k", .str (str "10.1.0.0:80, 10.1.0.0, unknown")⟩ := by decide
 example : maskValue exO (cidr4 16) (cidr6 32) (str "10.1.2.3") = str "10.1.0.0" ∧
     maskValue exO (cidr4 16) (cidr6 32) (str "10.1.9.9") = str "10.1.0.0" ∧
     maskedOf (cidr4 16) (cidr6 32) (.v4 [10, 1, 2, 3]) = maskedOf (cidr4 16) (cidr6 32) (.v4 [10, 1, 9, 9]) := by decide
